@@ -6,6 +6,7 @@ from typing import List
 
 from harness.lib.core import VERIF, Ctx, lean_lock, run_driver, shrink_ops
 from harness.extract import database as x_db
+from harness.extract import database_tr as x_tr
 from harness.rigs import database as rig
 
 MANIFEST = {
@@ -17,13 +18,20 @@ MANIFEST = {
             "COMPROMISED data fails and the file leaves COMPROMISED only through a successful restore, an ENCRYPT or deletion; "
             "a backup taken while GOOD restores to GOOD; with the service not running, the node not ON or the request path "
             "blocked, connect/query/disconnect/backup/restore fail and leave the server unchanged; capacity boundary; "
-            "wrong-then-right password. Tie: status codes, guard tables, health sets and comparison operators regenerated from "
+            "wrong-then-right password. Deepened: `_process_connect`, `_process_sql` and `add_connection` are translated statement by "
+            "statement from the source on every run (Gen/DatabaseTr.lean) and PROVED EQUAL to the model (C17_tr_*); shut-down "
+            "duration 0; backup_server_ip None; the FTP client on the database host stopped / paused / disabled / uninstalled; the "
+            "service uninstalled; a co-located database client owning port 5432; folder and backup-copy deletion; a saturated "
+            "link as an adversarial input of backup / restore / tick; DataManipulationBot and RansomwareScript driven through "
+            "attack() and their execute requests (stage machine with both Bernoulli outcomes as inputs). Tie: status codes, guard tables, health sets and comparison operators regenerated from "
             "database_service.py / software.py / service.py (Gen/Database.lean + C17_gen_* obligations) and differential rig R-db "
             "on real client/server/backup hosts behind a router (several concurrent clients, ransomware script, uninstall, "
             "power events, ACL blocks in either direction, ticks).",
     "note": "C17-specific: the network between hosts is abstracted to per-direction reachability flags (validated by the rig "
             "with real ACL rules, NIC state and node power); FTP transfer internals are modelled only as far as the database "
-            "uses them; link saturation (C18) and file-system request surface (C15) are out of scope.",
+            "uses them; link LOAD ACCOUNTING is C18's: here a link refusing the file-transfer frame is an input of the model "
+            "(all values covered by the theorems) whose actual value the rig observes on the real links; the file-system "
+            "request surface (C15) is out of scope.",
     "technique": "Lean 4 theorems over an executable client/server/backup model; tied by regenerated tables and a differential rig",
     "design_ref": "5/C17",
 }
@@ -89,6 +97,7 @@ def replay(rec: dict) -> bool:
 def run(ctx: Ctx):
     with lean_lock():
         ctx.extract(x_db.GEN_NAME, x_db.emit)
+        ctx.extract(x_tr.GEN_NAME, x_tr.emit)
         ctx.prove(MODULES, exes=[EXE], clean=False, leanchecker=ctx.thorough)
     ctx.cov["rule"] = ("case = (number of clients 1..4, session limit, passwords, durations, ransomware presence, op sequence over "
                        "connect / handle+raw+native query / disconnect / forged+foreign ids / execute / uninstall+install / "
@@ -96,8 +105,11 @@ def run(ctx: Ctx):
                        "ticks); every op's answer, the status codes sent by the server and a state digest are diffed; a case is "
                        "non-trivial when a refusal status (401/404/500/503), damage, a lifecycle/power change, an uninstall or a "
                        "validator rejection occurred; distinct by canonical JSON")
-    ctx.notes.append("client and server both use port 5432: a host carrying both keeps only the last installed in the port map "
-                     "(DESIGN 5/C17); generated topologies never co-locate them")
+    ctx.notes.append("client and server both use port 5432: a host carrying both keeps only the last installed in the port map. "
+                     "Modelled and driven: a database client installed on the database host takes the entry (service unreachable), "
+                     "uninstalling it removes the entry (still unreachable). EXCLUDED: a database service installed on a host whose "
+                     "client talks to a remote database - the two services answer each other's 500 for ever (RecursionError out of "
+                     "the real code; a totality defect outside C17's statement, reported in the design note)")
     cases = []
     for f in sorted((VERIF / "corpus" / "C17").glob("*.json")):
         cases.append(("corpus:" + f.name, json.loads(f.read_text())["case"]))
@@ -125,6 +137,12 @@ def run(ctx: Ctx):
         ctx.count("clients:" + str(len(case["clients"])))
         ctx.count("profile:" + case.get("profile", "corpus"))
         ctx.count("len:" + str(min(len(case["ops"]) // 10 * 10, 60)) + "+")
+        if case.get("bw") or case.get("bw_bk"):
+            ctx.count(f"links:narrow:{case.get('bw') or 'wide'}/{case.get('bw_bk') or 'wide'}")
+        if 0 in case["durs"].values():
+            ctx.count("shut-down-or-start-up-duration-0")
+        if not case.get("bkcfg", True):
+            ctx.count("backup_server_ip:None")
         blocks = {}
         prev = ""
         for q, m in zip(lines, model):
@@ -135,6 +153,12 @@ def run(ctx: Ctx):
                 blocks[int(w[1])] = w[2] == "1"
             if w[0] in ("backup", "restore") and prev:
                 ctx.count(f"branch:{w[0]}:" + _transfer_branch(w[0], prev, blocks))
+            if w[0] in ("backup", "restore", "tick") and "0" in w[1:]:
+                ctx.count(f"saturated:{w[0]}:" + "".join(w[1:]))
+            if w[0] == "adm":
+                ctx.count("op:adm:" + ":".join(w[1:3] if w[1] == "ftpc" else w[1:2]))
+            if w[0] == "dm":
+                ctx.count(f"dm:scan={w[3]},attack={w[4]},request={w[5]}")
             if " | " in m:
                 prev = m.split(" | ")[1]
             ctx.count("op:" + w[0] + (":" + w[1] if w[0] == "svc" else ""))
